@@ -5,7 +5,10 @@ import (
 	"crypto/rand"
 	"crypto/sha256"
 	"encoding/binary"
+	"encoding/json"
 	"fmt"
+	"os"
+	"os/exec"
 	"sort"
 	"strings"
 	"sync"
@@ -461,4 +464,61 @@ func TestC08_Concurrent(t *testing.T) {
 		return c08ConcCase{Seed: rapid.Uint64().Draw(t, "seed"),
 			Ops: rapid.SliceOfN(rapid.SliceOfN(rapid.SampledFrom([]int{0, 1, 2, 0, 1, 2, 3, 77}), 1, 8), 2, 8).Draw(t, "ops")}
 	})
+}
+
+// Fresh processes: with the operating system's source in place (nothing substituted), what two freshly started processes
+// hand out first never coincides. A source that is replaced by something deterministic at start-up gives every secret the
+// right shape; only a second process shows it.
+type c08FreshCase struct {
+	Processes int `json:"processes"`
+}
+
+func runChildC08() {
+	var out []string
+	for k := 0; k < 3; k++ {
+		for a := 0; a < 3; a++ {
+			s, err := otp.RandomSecret(otp.Algorithm(a))
+			if err != nil {
+				s = "error: " + err.Error()
+			}
+			out = append(out, s)
+		}
+	}
+	b, _ := json.Marshal(out)
+	fmt.Println(string(b))
+}
+
+var c08Fresh = newPart("C08", "fresh-processes",
+	"three fresh child processes (the library's calls are the first thing that happens in them, nothing is substituted) each produce 9 secrets (3 per hash): every one is upper-case unpadded base32 of 20 / 32 / 64 bytes and all 27 are pairwise different; one case",
+	func(c c08FreshCase) verdict {
+		seen := map[string]int{}
+		for p := 0; p < c.Processes; p++ {
+			cmd := exec.Command(os.Args[0], "-test.run", "^$")
+			cmd.Env = append(os.Environ(), "VERIF_CHILD=c08")
+			raw, err := cmd.Output()
+			var got []string
+			if err != nil || json.Unmarshal(bytes.TrimSpace(raw), &got) != nil || len(got) != 9 {
+				fmt.Println("INFRA: child process for C08 failed:", err, string(raw))
+				os.Exit(3)
+			}
+			for i, s := range got {
+				b, good := secretBytes(s)
+				if !good || len(b) != sizeOf(i%3) {
+					return bad(true, nil, "fresh process %d: RandomSecret(%d) = %q; want upper-case unpadded base32 of %d bytes", p+1, i%3, s, sizeOf(i%3))
+				}
+				if q, dup := seen[s]; dup {
+					return bad(true, nil, "the secret %q was produced by fresh process %d and again by fresh process %d (call %d): two processes never draw the same bytes from the operating system's random source", s, q, p+1, i+1)
+				}
+				seen[s] = p + 1
+			}
+		}
+		return ok(true, fmt.Sprintf("secrets=%d", len(seen)))
+	})
+
+func TestC08_FreshProcesses(t *testing.T) {
+	defer c08Fresh.rec().Flush()
+	if ev.Mine(0) {
+		c08Fresh.each(t, c08FreshCase{Processes: 3})
+	}
+	c08Fresh.rec().Exhaustive()
 }
